@@ -1,13 +1,255 @@
+// Package c11: governance stake accounting (C11).
+//
+// Generated histories of governance transactions (register / approve / reject / authorize /
+// unauthorize / withdraw / quit / black / white / commitDpos / changeMaxAuthorization /
+// add+reduceInitPos / transferPenalty, including invalid ones) are executed through the real
+// native contracts (governance, ont, ong, auth, global_params) over an in-memory store.  After
+// every transaction the stored records are decoded; (a) the ORACLE evaluates the property
+// directly on them, (b) the history is written as a correspondence case for Model/Gov.v.
 package c11
 
 import (
+	"crypto/sha256"
+	"encoding/json"
 	"fmt"
 	"os"
+	"strings"
 
 	"verif/harness/hx"
 )
 
 func init() { hx.Register("C11", Run) }
+
+type history struct {
+	Setup setup `json:"setup"`
+	Ops   []op  `json:"ops"`
+}
+
+type stepOut struct {
+	Res string
+	Err string
+	Obs *obs
+}
+
+// ---------------------------------------------------------------- oracle
+
+type acct struct {
+	gap0      int64 // balance(gov) - sum(stakes) - sum(penalties) right after genesis
+	deposited map[int]uint64
+	withdrawn map[int]uint64
+}
+
+func sumStakes(o *obs) (s uint64) {
+	for _, e := range o.Stakes {
+		s += e.V
+	}
+	return
+}
+func sumPens(o *obs) (s uint64) {
+	for _, e := range o.Pens {
+		s += e.Init + e.Auth
+	}
+	return
+}
+func balOf(o *obs, id int) uint64 {
+	for _, e := range o.Bal {
+		if e.K == id {
+			return e.V
+		}
+	}
+	return 0
+}
+func stakeOf(o *obs, id int) uint64 {
+	for _, e := range o.Stakes {
+		if e.K == id {
+			return e.V
+		}
+	}
+	return 0
+}
+func gapOf(o *obs) int64 { return int64(balOf(o, idGov)) - int64(sumStakes(o)) - int64(sumPens(o)) }
+
+// checkState evaluates the state clauses of the property on decoded storage.
+func checkState(c *hx.Ctx, h *history, upto int, o *obs, a *acct) {
+	in := &history{Setup: h.Setup, Ops: h.Ops[:upto]}
+	if o.Frac {
+		c.Fail("inv:fractional-balance", "an ONT balance touched by governance is not a whole number", in, nil, nil)
+	}
+	if g := gapOf(o); g != a.gap0 {
+		c.Fail("inv:balance-vs-stakes", "ONT balance of governance = sum of total stakes + penalty stakes (difference must stay what it was after genesis)",
+			in, map[string]interface{}{"balance": balOf(o, idGov), "stakes": sumStakes(o), "penalties": sumPens(o)}, a.gap0)
+	}
+	// pool_pos_consistent: per peer, sum of the authorizers' Consensus+Candidate+New = TotalPos
+	act := map[int]uint64{}
+	all6 := map[int]uint64{}
+	for _, i := range o.Infos {
+		act[i.Peer] += i.B[0] + i.B[1] + i.B[2]
+		all6[i.Addr] += i.B[0] + i.B[1] + i.B[2] + i.B[3] + i.B[4] + i.B[5]
+	}
+	inPool := map[int]bool{}
+	owned := map[int]uint64{}
+	for _, p := range o.Pool {
+		inPool[p.Peer] = true
+		owned[p.Owner] += p.Init
+		if act[p.Peer] != p.Total {
+			c.Fail("inv:pool-pos", "TotalPos of a peer = sum over authorizers of Consensus+Candidate+New positions", in,
+				map[string]interface{}{"peer": p.Peer, "totalPos": p.Total, "sum": act[p.Peer]}, nil)
+		}
+	}
+	for k, v := range act {
+		if !inPool[k] && v != 0 {
+			c.Fail("inv:pool-pos", "a peer outside the pool has active positions", in, map[string]interface{}{"peer": k, "sum": v}, 0)
+		}
+	}
+	// per-address accounting: total stake = all position buckets + initPos of owned peers
+	for id := 0; id < nAddr; id++ {
+		if stakeOf(o, id) != all6[id]+owned[id] {
+			c.Fail("inv:address-accounting", "total stake of an address = its positions in all buckets + initPos of the peers it owns", in,
+				map[string]interface{}{"addr": id, "stake": stakeOf(o, id), "positions": all6[id], "initPos": owned[id]}, nil)
+		}
+	}
+}
+
+// checkStep evaluates the transition clauses (withdraw bounds, failed calls change nothing).
+func checkStep(c *hx.Ctx, h *history, idx int, pre, post *obs, res string, a *acct) {
+	in := &history{Setup: h.Setup, Ops: h.Ops[:idx+1]}
+	o := &h.Ops[idx]
+	if res == "RPanic" {
+		c.Fail("panic", "a governance transaction panicked", in, nil, nil)
+	}
+	if res != "ROk" {
+		pj, _ := json.Marshal(pre)
+		qj, _ := json.Marshal(post)
+		if string(pj) != string(qj) {
+			c.Fail("failed-call-changed-state", "a failing transaction changed stored records", in, nil, nil)
+		}
+		return
+	}
+	for id := 3; id < nAddr; id++ {
+		b0, b1 := balOf(pre, id), balOf(post, id)
+		if b1 > b0 {
+			got := b1 - b0
+			a.withdrawn[id] += got
+			// money may only leave governance through withdraw (to its owner) or transferPenalty
+			if o.Kind == "withdraw" && id == o.Addr {
+				var unf, req uint64
+				for i, k := range o.Peers {
+					if i < len(o.Pos) {
+						req += uint64(o.Pos[i])
+					}
+					seen := false
+					for _, kk := range o.Peers[:i] {
+						seen = seen || kk == k
+					}
+					if seen {
+						continue
+					}
+					for _, inf := range pre.Infos {
+						if inf.Peer == k && inf.Addr == id {
+							unf += inf.B[5]
+						}
+					}
+				}
+				if got != req || got > unf || got > stakeOf(pre, id) {
+					c.Fail("withdraw:over-unfrozen", "a withdrawal pays exactly the requested amount, at most the unfrozen positions and at most the total stake", in,
+						map[string]interface{}{"paid": got, "requested": req, "unfrozen": unf, "stake": stakeOf(pre, id)}, nil)
+				}
+			} else if o.Kind != "penalty" {
+				c.Fail("ont-left-governance", "ONT reached an address outside withdraw/transferPenalty", in, map[string]interface{}{"addr": id, "amount": got}, nil)
+			}
+			if o.Kind != "penalty" && a.withdrawn[id] > a.deposited[id] {
+				c.Fail("withdraw:over-deposited", "an address withdrew more ONT than it deposited", in,
+					map[string]interface{}{"addr": id, "withdrawn": a.withdrawn[id], "deposited": a.deposited[id]}, nil)
+			}
+		} else if b0 > b1 {
+			a.deposited[id] += b0 - b1
+		}
+	}
+}
+
+// ---------------------------------------------------------------- running a history
+
+func coqParams(st *setup) string {
+	return fmt.Sprintf("(mkParams %d 7 100000 INIT_CandidateNum 10000 INIT_PosLimit INIT_Penalty DEFAULT_MIN_AUTHORIZE_POS SELFGOV_REGISTER_MAINNET)", idAdmin)
+}
+
+func runHistory(c *hx.Ctx, h *history, emit bool) (results []string) {
+	w := newWorld(c)
+	if err := w.genesis(&h.Setup); err != nil {
+		c.Fail("genesis-failed", "genesis calls failed: "+err.Error(), h, nil, nil)
+		return
+	}
+	o0, err := w.observe()
+	if err != nil {
+		c.Fail("decode-failed", "stored records do not decode: "+err.Error(), h, nil, nil)
+		return
+	}
+	a := &acct{gap0: gapOf(o0), deposited: map[int]uint64{}, withdrawn: map[int]uint64{}}
+	for _, p := range h.Setup.Peers { // genesis stakes count as deposits of the owners
+		a.deposited[p.Owner] += p.Init
+	}
+	checkState(c, h, 0, o0, a)
+	var steps []string
+	pre := o0
+	var sig strings.Builder
+	for i := range h.Ops {
+		o := &h.Ops[i]
+		res, etext := w.apply(o)
+		post, err := w.observe()
+		if err != nil {
+			c.Fail("decode-failed", "stored records do not decode: "+err.Error(), &history{h.Setup, h.Ops[:i+1]}, nil, nil)
+			return
+		}
+		c.Count("op:" + o.Kind)
+		c.Count("res:" + res)
+		c.Count("op-res:" + o.Kind + ":" + res)
+		if res == "EOther" || res == "RPanic" {
+			c.Count("unclassified:" + etext)
+			c.Fail("unclassified-error", "the implementation failed in a way the model has no class for: "+etext, &history{h.Setup, h.Ops[:i+1]}, res, nil)
+		}
+		checkStep(c, h, i, pre, post, res, a)
+		checkState(c, h, i+1, post, a)
+		results = append(results, res)
+		coqRes := res
+		if res == "EOther" || res == "RPanic" {
+			coqRes = "ROk" // has no model counterpart; reported by the oracle above
+		}
+		if (i+1)%8 == 0 || i == len(h.Ops)-1 {
+			steps = append(steps, fmt.Sprintf("mkStep %d %s %s true [] %s", o.Height, o.coq(), coqRes, post.coq()))
+		} else {
+			d, del := diff(pre, post)
+			var dl []string
+			for _, k := range del {
+				dl = append(dl, fmt.Sprint(k))
+			}
+			steps = append(steps, fmt.Sprintf("mkStep %d %s %s false %s %s", o.Height, o.coq(), coqRes, hx.CoqList(dl), d.coq()))
+		}
+		fmt.Fprintf(&sig, "%s:%s;", o.Kind, res)
+		pre = post
+	}
+	if emit {
+		var peers, ont []string
+		for _, p := range h.Setup.Peers {
+			peers = append(peers, fmt.Sprintf("(%d, %d, %d)", p.Peer, p.Owner, p.Init))
+		}
+		for _, e := range o0.Bal {
+			ont = append(ont, fmt.Sprintf("(%d, %d)", e.K, e.V))
+		}
+		term := fmt.Sprintf("CHist %s %d %s %s %s %s", coqParams(&h.Setup), h.Setup.Height0, hx.CoqList(peers), hx.CoqList(ont), o0.coq(), hx.CoqList(steps))
+		c.Case(term, h)
+		sum := sha256.Sum256([]byte(sig.String()))
+		ok := 0
+		for _, r := range results {
+			if r == "ROk" {
+				ok++
+			}
+		}
+		if ok >= 5 {
+			c.Nontrivial(fmt.Sprintf("%x", sum[:8]))
+		}
+	}
+	return
+}
 
 func Run(c *hx.Ctx) {
 	c.CoqModule("Corr.C11")
@@ -15,45 +257,46 @@ func Run(c *hx.Ctx) {
 		smoke(c)
 		return
 	}
+	var h history
+	if c.ReplayInput(&h) {
+		runHistory(c, &h, true)
+		return
+	}
+	for _, raw := range c.CorpusInputs() {
+		var ch history
+		if json.Unmarshal(raw, &ch) == nil {
+			runHistory(c, &ch, true)
+			c.Count("corpus")
+		}
+	}
+	// deterministic probes
+	for _, ph := range probes() {
+		runHistory(c, ph, true)
+		c.Count("probe")
+	}
+	n := c.N(36, 400)
+	for i := 0; i < n; i++ {
+		g := newGen(c, i)
+		hh := g.generate()
+		res := runHistory(c, hh, true)
+		if i < 2 {
+			var short []string
+			for j, o := range hh.Ops {
+				if j < 25 {
+					short = append(short, fmt.Sprintf("%s->%s", o.Kind, res[j]))
+				}
+			}
+			c.Sample(map[string]interface{}{"regime": g.regime, "first_ops": short})
+		}
+	}
 }
 
 func smoke(c *hx.Ctx) {
-	w := newWorld(c)
-	st := &setup{Funded: true, Bal: map[int]uint64{5: 200000, 6: 100000, 7: 100000, 8: 50000, 9: 50000, 10: 50000}, Height0: 3000000, Time0: 1530316800 + 1000}
-	for i := 1; i <= 7; i++ {
-		st.Peers = append(st.Peers, genesisPeer{Peer: i, Owner: 3 + i%2, Init: uint64(10000 + 1000*i)})
+	g := newGen(c, 0)
+	h := g.generate()
+	res := runHistory(c, h, true)
+	for i, o := range h.Ops {
+		b, _ := json.Marshal(o)
+		fmt.Println(string(b), res[i])
 	}
-	if err := w.genesis(st); err != nil {
-		fmt.Println("genesis:", err)
-		return
-	}
-	show := func() {
-		o, err := w.observe()
-		fmt.Println(err, o.coq())
-	}
-	show()
-	h := uint32(3000001)
-	t := st.Time0
-	run := func(o op) {
-		h++
-		t += 10
-		o.Height, o.Time = h, t
-		r, e := w.apply(&o)
-		fmt.Println(o.Kind, r, e)
-	}
-	run(op{Kind: "register", Signer: 5, Addr: 5, Peer: 8, Amount: 30000})
-	run(op{Kind: "maxauth", Signer: 5, Addr: 5, Peer: 8, Amount: 100000})
-	run(op{Kind: "authorize", Signer: 8, Addr: 8, Peers: []int{8}, Pos: []uint32{1000}})
-	run(op{Kind: "authorize", Signer: 8, Addr: 8, Peers: []int{1}, Pos: []uint32{1000}})
-	run(op{Kind: "commit", Signer: 1})
-	show()
-	run(op{Kind: "unauthorize", Signer: 8, Addr: 8, Peers: []int{8}, Pos: []uint32{500}})
-	run(op{Kind: "commit", Signer: 1})
-	run(op{Kind: "commit", Signer: 1})
-	run(op{Kind: "withdraw", Signer: 8, Addr: 8, Peers: []int{8}, Pos: []uint32{500}})
-	run(op{Kind: "black", Signer: 1, Peers: []int{8}})
-	run(op{Kind: "commit", Signer: 1})
-	run(op{Kind: "quit", Signer: 4, Addr: 4, Peer: 1})
-	run(op{Kind: "approve", Signer: 1, Peer: 9})
-	show()
 }
